@@ -8,10 +8,10 @@ for d in sorted(glob.glob(os.path.join(os.path.dirname(os.path.dirname(os.path.a
     first = next((l.strip("# ").strip() for l in notes.splitlines() if l.strip()), "")
     first = re.sub(r"^C\d+b? ?/ ?m\d ?[-:–] ?", "", first)[:110]
     det = m["detected_by"]
-    missed = "MISSED" in det or "THOROUGH only" in det or "only" in det.split(";")[0]
+    missed = "MISSED" in det or "THOROUGH only" in det or "only" in det.split(";")[0] or ") after " in det
     rows.append((os.path.basename(d), first, det[:170], missed, det.startswith("NOT DETECTED")))
 print("| change | what it is | detected by |\n|---|---|---|")
 for n, f, d, _m, _n in rows:
     print("| %s | %s | %s |" % (n, f.replace("|", "/"), d.replace("|", "/")))
-print("\n%d changes; %d needed a strengthening of the machinery first; %d are not detected by design (inputs outside the annotated types)"
+print("\n%d changes; %d needed a strengthening of the machinery first; %d are not detected (by decision - inputs outside the annotated types or the stated clauses -, tooling limits, or not reached yet: see the text above)"
       % (len(rows), sum(1 for r in rows if r[3]), sum(1 for r in rows if r[4])))
